@@ -26,13 +26,14 @@ PLAN = {
     "C01": dict(
         title="Backpropagated gradients are the true derivatives of the objective",
         level="proof",
-        verus=["C01_conv_backward.rs", "C01_deconv_backward.rs", "C01_maxpool_backward.rs", "C07_activations.rs", "C16_skip_backward.rs", "C02_dense.rs"],
+        verus=["C01_conv_backward.rs", "C01_deconv_backward.rs", "C01_maxpool_backward.rs", "C07_activations.rs", "C16_skip_backward.rs", "C02_dense.rs", "C01_feedback_backward.rs"],
         kani=True,
         undecided_clauses=[
             "Dense::backward is proved to be the delta rule over abstract tensor operations (unit dense.backward: delta = f'(out) (.) g * scale, ones for soft-max; "
             "W^T delta; delta (x) input; bias gradient = delta), the operations themselves are C15's; numerically it is a bounded Kani harness (2->2 / 1->2, small-integer data)",
             "the reverse step of Network::backward is proved (unit network.backward.walk: which gradient and which input each layer's backward "
-            "receives, what is handed on); Feedback::backward's inner walk and the loop-connection scaling (`loops`, `scale`) are read, not verified"],
+            "receives, what is handed on); the reverse step of Feedback::backward is proved for blocks without internal skips, the class C01 names (unit feedback.backward.walk; the skip branch is "
+            "proved unreachable there); the loop-connection scaling (`loops`, `scale`) is read, not verified"],
     ),
     "C02": dict(
         title="Each layer's forward pass computes its defining operator",
